@@ -3,6 +3,7 @@ package main
 import (
 	"fmt"
 	"go/token"
+	"go/types"
 	"strings"
 
 	"golang.org/x/tools/go/ssa"
@@ -50,6 +51,7 @@ func runC09(c *Ctx) {
 	c.Rule("C09.path-copy", "walkInternal and walkInternalSorted pass to each child's visit a path built on a slice made inside the loop iteration (never an append onto the path parameter, whose spare capacity siblings would share)")
 
 	queryTable(c, "C09.query-table")
+	getTable(c, "C09.get-table")
 	addAtomic(c, "C09.add-atomic")
 	ctreeExposure(c, "C09.exposure")
 	contentWriters(c, "C09.content-writers")
@@ -90,7 +92,8 @@ func runC09(c *Ctx) {
 	}
 	// ---- select + prune: path scenarios over internalDelete
 	c.Analysed(fnName(id))
-	subP, condP, fP := ssa.Value(param(id, 1)), ssa.Value(param(id, 2)), ssa.Value(param(id, 3))
+	subP := ssa.Value(param(id, 1))
+	roles := delRolesOf(id)
 	cls := func(e *PPA, st *State, rv RV) string {
 		rv = e.Resolve(st, rv)
 		switch v := rv.V.(type) {
@@ -112,7 +115,7 @@ func runC09(c *Ctx) {
 					return "LENB"
 				}
 			}
-			if v.Call.Value == condP {
+			if roles.cond(v.Call.Value) {
 				return "COND"
 			}
 		case *ssa.BinOp:
@@ -132,8 +135,8 @@ func runC09(c *Ctx) {
 					}
 				}
 			}
-		case *ssa.Parameter:
-			if len(id.Params) == 5 && v == param(id, 4) {
+		case *ssa.Parameter, *ssa.Field, *ssa.UnOp:
+			if roles.ret(v) {
 				return "RET"
 			}
 		case *ssa.Extract:
@@ -146,8 +149,8 @@ func runC09(c *Ctx) {
 		}
 		return ""
 	}
-	isCond := func(ev *Ev) bool { return strings.HasPrefix(ev.Label, "call:dyn:") && ev.Fn.V == condP }
-	isF := func(ev *Ev) bool { return strings.HasPrefix(ev.Label, "call:dyn:") && ev.Fn.V == fP }
+	isCond := func(ev *Ev) bool { return strings.HasPrefix(ev.Label, "call:dyn:") && roles.cond(ev.Fn.V) }
+	isF := func(ev *Ev) bool { return strings.HasPrefix(ev.Label, "call:dyn:") && roles.f(ev.Fn.V) }
 	isRec := func(ev *Ev) bool { return ev.Label == "call:"+fnName(id) }
 	isDel := func(ev *Ev) bool { return ev.Label == "builtin:delete" }
 	run := func(b map[string]bool, i map[string]int64, mv int) *PPA {
@@ -465,3 +468,86 @@ func runC09(c *Ctx) {
 
 // e2v: the resolved callee value of a dynamic call event (through inlined frames).
 func e2v(ev *Ev) ssa.Value { return ev.Fn.V }
+
+// delRoles locates, by type, the three things internalDelete is parameterised with - the condition
+// func(interface{}) bool, the callback func(interface{}) and the "collect paths" flag - whether they are
+// parameters of their own or fields of one struct parameter.
+type delRoles struct {
+	cond, f, ret func(v ssa.Value) bool
+}
+
+func delRolesOf(id *ssa.Function) delRoles {
+	// the parameter a local cell was spilled from: its only whole-cell store stores a parameter of id
+	spilled := func(al *ssa.Alloc) bool {
+		n, ok := 0, false
+		if al.Referrers() == nil {
+			return false
+		}
+		for _, r := range *al.Referrers() {
+			if st, isSt := r.(*ssa.Store); isSt && st.Addr == ssa.Value(al) {
+				n++
+				if p, isP := st.Val.(*ssa.Parameter); isP && p.Parent() == id {
+					ok = true
+				}
+			}
+		}
+		return n == 1 && ok
+	}
+	fromParam := func(v ssa.Value) (types.Type, bool) {
+		switch x := v.(type) {
+		case *ssa.Parameter:
+			return x.Type(), x.Parent() == id
+		case *ssa.Field:
+			if p, ok := x.X.(*ssa.Parameter); ok && p.Parent() == id {
+				return x.Type(), true
+			}
+			// a struct parameter spilled to a local cell
+			if u, ok := x.X.(*ssa.UnOp); ok && u.Op == token.MUL {
+				if al, ok := u.X.(*ssa.Alloc); ok && spilled(al) {
+					return x.Type(), true
+				}
+			}
+		case *ssa.UnOp:
+			if x.Op != token.MUL {
+				return nil, false
+			}
+			if fa, ok := x.X.(*ssa.FieldAddr); ok {
+				switch b := fa.X.(type) {
+				case *ssa.Parameter:
+					return x.Type(), b.Parent() == id
+				case *ssa.Alloc:
+					if spilled(b) {
+						return x.Type(), true
+					}
+				}
+			}
+		}
+		return nil, false
+	}
+	sig := func(t types.Type, results int) bool {
+		s, ok := t.Underlying().(*types.Signature)
+		if !ok || s.Params().Len() != 1 || s.Results().Len() != results {
+			return false
+		}
+		if _, isI := s.Params().At(0).Type().Underlying().(*types.Interface); !isI {
+			return false
+		}
+		if results == 1 {
+			b, ok := s.Results().At(0).Type().Underlying().(*types.Basic)
+			return ok && b.Kind() == types.Bool
+		}
+		return true
+	}
+	return delRoles{
+		cond: func(v ssa.Value) bool { t, ok := fromParam(v); return ok && sig(t, 1) },
+		f:    func(v ssa.Value) bool { t, ok := fromParam(v); return ok && sig(t, 0) },
+		ret: func(v ssa.Value) bool {
+			t, ok := fromParam(v)
+			if !ok {
+				return false
+			}
+			b, isB := t.Underlying().(*types.Basic)
+			return isB && b.Kind() == types.Bool
+		},
+	}
+}
